@@ -22,7 +22,7 @@ Mirror of the Rust code (MINIMISATION of the time at which the tour ends: the co
   `transition_cost = -(travel + waiting)`, travel = min distance, waiting = `max 0 (e_j - (earliest + travel))`;
 * `relax.rs`: `cheapest_edge[i] = min_{j ≠ i} d[j][i]` (`usize::MAX` when `n = 1`); `merge`: depth = max, position =
   `Virtual(∪)`, elapsed = `[min earliest, max latest]` (`Fixed` when equal), `must = ∩`, `maybe = (∪ maybe ∪ ∪ must) \ ∩ must`
-  (`None` when empty); no state at all: `(Virtual ∅, Fuzzy(usize::MAX, 0), {0..255}, None, 0)`; `relax = cost`;
+  (`None` when empty); no state at all: `(Virtual ∅, Fuzzy(usize::MAX, 0), {0..255}, None, 0)`; `relax = cost + (dest.earliest − merged.earliest)` (repaired; `cost` before);
   `fast_upper_bound`: see `rub?` (line by line, `isize::MIN` = infeasible = inner `none`);
 * `heuristics.rs`: ranking = comparison of the depths; `max_width = nb_vars * (depth + 1) * factor`;
 * `dominance.rs`: key = `(position, must_visit)`, no coordinate, `use_value`: the inherited `partial_cmp` compares the values.
@@ -249,9 +249,19 @@ def rub? (s : St) : Option (Option Int) :=
       let (_, l0) ← tw? T 0
       pure (if a.earliest > l0 then none else some (-(total : Int)))
 
-def relaxation : Relax St :=
+/-- the relaxation AS SHIPPED BEFORE the repair (`fix:` commit of /repo, finding D20): `relax` returned the cost unchanged although
+    `merge` keeps the earliest time — a later arrival merged with an earlier one and then absorbed by a wait was charged that wait
+    twice (`TsptwModel.potential_form_fails`) -/
+def relaxationOld : Relax St :=
   { merge := merge
     relax := fun _ _ _ _ c => c
+    rub := fun s => match rub? T s with | some (some v) => v | _ => 0 }
+
+/-- `TsptwRelax` (repaired): the arc redirected to the merged node gives back the time by which its former target is later
+    than the merged node (`cost + (dest.earliest - merged.earliest)`) -/
+def relaxation : Relax St :=
+  { merge := merge
+    relax := fun _ u m _ c => c + ((u.el.earliest : Int) - (m.el.earliest : Int))
     rub := fun s => match rub? T s with | some (some v) => v | _ => 0 }
 
 /-- `TsptwRanking::compare` -/
